@@ -40,6 +40,9 @@ fn main() {
         let id = v["property"].as_str().unwrap_or("").to_string();
         let code = match id.as_str() {
             "C01" => checks::c01::replay(&v),
+            "C02" => checks::c02::replay(&v),
+            "C03" => checks::c03::replay(&v),
+            "C10" => checks::c10::replay(&v),
             "C12" => checks::c12::replay(&v),
             "C09" => checks::c09::replay(&v),
             "C11" => checks::c11::replay(&v),
@@ -57,6 +60,9 @@ fn main() {
     };
     let code = match args[1].as_str() {
         "C01" => checks::c01::run(tier, seed),
+        "C02" => checks::c02::run(tier, seed),
+        "C03" => checks::c03::run(tier, seed),
+        "C10" => checks::c10::run(tier, seed),
         "C12" => checks::c12::run(tier, seed),
         "C09" => checks::c09::run(tier, seed),
         "C11" => checks::c11::run(tier, seed),
